@@ -46,7 +46,7 @@ DoWriteCode == \E c \in {CGamma, CDelta, CZeta(3), COmega, CRice(2), CGolomb(<<1
     IN  /\ WriteCodeStep(wr, c, n, "ok", Len(A), D, w2)
         /\ wr' = w2 /\ written' = written \o A /\ delivered' = delivered \o D /\ UNCHANGED rd
 DoFlush ==
-    LET D == wr.pend \o Zeros(PadLen(wr))  w2 == [wr EXCEPT !.pend = <<>>]
+    LET D == wr.pend \o Zeros(PadLen(wr))  w2 == [wr EXCEPT !.pend = <<>>]   \* unbounded backend: room stays -1
     IN  /\ FlushStep(wr, "ok", Len(wr.pend), D, w2)
         \* idempotent
         /\ FlushStep(w2, "ok", 0, <<>>, w2)
